@@ -501,6 +501,9 @@ def standard(ctx, spec):
         model = {}
     known, _ = load_known()
     dec = spec.get("decode", lambda p: p)
+    # SPEC["equal"](go_result, model_result, attrs) -> bool: an optional, pure comparison for result lines with
+    # several sections of which the model may declare some as outside itself (default: identical lines)
+    eq = spec.get("equal", lambda g, m, attrs: g == m)
     bad, kf_hits, nontrivial, outside = [], {}, set(), 0
     for i in sorted(cases):
         g = gores.get(i, "MISSING-RESULT")
@@ -514,11 +517,11 @@ def standard(ctx, spec):
             continue
         if attrs.get("nt") == "1":
             nontrivial.add(cases[i])
-        if g == m:
+        if eq(g, m, attrs):
             if "kf" in attrs:
                 kf_hits.setdefault(attrs["kf"], []).append(i)
             continue
-        if "spec" in attrs and g == attrs["spec"]:
+        if "spec" in attrs and eq(g, attrs["spec"], attrs):
             continue
         bad.append(i)
     cov["evaluations"] = len(cases)
@@ -600,7 +603,8 @@ def replay(ctx, spec, path):
     print("case  :", case.get("readable", case["payload"]))
     print("go    :", go)
     print("model :", m, attrs)
-    ok = go == m or ("spec" in attrs and go == attrs["spec"])
+    eq = spec.get("equal", lambda g, m, attrs: g == m)
+    ok = eq(go, m, attrs) or ("spec" in attrs and eq(go, attrs["spec"], attrs))
     print("agree :", ok)
     if not ok:
         print(f"VIOLATION property={ctx.prop} replay={os.path.relpath(path, VERIF)}")
